@@ -800,6 +800,70 @@ class Builder:
         self.edge(n, body)
         return n
 
+    # ---------------------------------------------------- loops over a literal display: unrolling
+    @staticmethod
+    def _pure(e: ast.AST) -> bool:
+        if isinstance(e, (ast.Name, ast.Constant)):
+            return True
+        if isinstance(e, ast.Attribute):
+            return Builder._pure(e.value)
+        if isinstance(e, (ast.Tuple, ast.List)):
+            return all(Builder._pure(x) for x in e.elts)
+        return False
+
+    def _loop_display(self, st: ast.For):
+        """the literal display `for ... in <display>` runs over: written in place, or a tuple bound once to a local; short, its
+        elements side-effect free, the loop variables never re-bound in the body"""
+        it = st.iter
+        if isinstance(it, ast.Name) and it.id not in self.sc.params:
+            hows = self.sc.defs.get(it.id, [])
+            if len(hows) == 1 and hows[0][0] in ("assign", "ann"):
+                v = hows[0][1] if hows[0][0] == "assign" else hows[0][2]
+                if isinstance(v, ast.Tuple):
+                    it = v
+        if not isinstance(it, (ast.Tuple, ast.List)) or not 1 <= len(it.elts) <= 4 or any(isinstance(x, ast.Starred) for x in it.elts):
+            return None
+        if not all(self._pure(x) for x in it.elts):
+            return None
+        tg = st.target
+        names = [tg.id] if isinstance(tg, ast.Name) else ([x.id for x in tg.elts] if isinstance(tg, (ast.Tuple, ast.List)) and all(isinstance(x, ast.Name) for x in tg.elts) else None)
+        if names is None:
+            return None
+        if isinstance(tg, (ast.Tuple, ast.List)) and not all(isinstance(x, (ast.Tuple, ast.List)) and len(x.elts) == len(names) for x in it.elts):
+            return None
+        for x in ast.walk(st):
+            if x is tg:
+                continue
+            if isinstance(x, ast.Name) and x.id in names and not isinstance(x.ctx, ast.Load) and not any(x is y for y in ast.walk(tg)):
+                return None  # re-bound in the body
+            if isinstance(x, (ast.FunctionDef, ast.AsyncFunctionDef, ast.Lambda, ast.ClassDef)):
+                return None
+        # the variables must not be read after the loop either (they would hold the last element)
+        for x in ast.walk(self.f.node):
+            if isinstance(x, ast.Name) and x.id in names and not any(x is y for y in ast.walk(st)):
+                return None
+        return it
+
+    def _subst_body(self, st: ast.For, elt: ast.AST) -> List[ast.stmt]:
+        """the loop body with the loop variables replaced by (the components of) this element"""
+        import copy
+
+        tg = st.target
+        mapping = {tg.id: elt} if isinstance(tg, ast.Name) else {t.id: e for t, e in zip(tg.elts, elt.elts)}
+
+        class Sub(ast.NodeTransformer):
+            def visit_Name(self, node: ast.Name):
+                if isinstance(node.ctx, ast.Load) and node.id in mapping:
+                    return ast.copy_location(copy.deepcopy(mapping[node.id]), node)
+                return node
+
+        out = []
+        for b in st.body:
+            nb = Sub().visit(copy.deepcopy(b))
+            ast.fix_missing_locations(nb)
+            out.append(nb)
+        return out
+
     # ---------------------------------------------------- boolean helpers: branch threading
     def _flag_call(self, e: Optional[ast.AST]):
         """e is `[not] [await] helper(...)` with a helper that is spliced in -> (negated, await node or None, call, helper)"""
@@ -1253,6 +1317,23 @@ class Builder:
                 self.edge(br, self.stmts(st.orelse, k, ctx), F)
             self.edge(head, test_entry)
             return head
+        disp = self._loop_display(st) if isinstance(st, ast.For) and self.an.known_funcs is not None else None
+        if disp is not None:
+            # a loop over a short literal display runs its body once per element: unrolled (so what the body does is done, in
+            # order, on every path - not "zero or more times"), each copy with the loop variables replaced by that element
+            cur = self.stmts(st.orelse, k, ctx)
+            self.loop_stack.append(st)
+            try:
+                for _i in reversed(range(len(disp.elts))):
+                    lctx = Ctx(ctx.ret, (lambda: k), (lambda cur=cur: cur), ctx.raise_, ctx.caught, ctx.ret_for)
+                    body_i = self.stmts(self._subst_body(st, disp.elts[_i]), cur, lctx)
+                    head_i = self.mk("iter", st, st)
+                    head_i.loops = tuple(self.loop_stack)
+                    self.edge(head_i, body_i, T)
+                    cur = head_i
+            finally:
+                self.loop_stack.pop()
+            return self.expr(st.iter, cur, ctx, st)
         if isinstance(st, (ast.For, ast.AsyncFor)):
             head = self.mk("iter", st, st)
             head.user = self._iter_is_user(st.iter)
